@@ -17,10 +17,12 @@ NOTES = {
     ('w6-', 'C01', 1): 'caught by C05 (the same change is C05/w6-3): needs the response to race the expiry',
     ('w6-', 'C01', 2): 'caught by C10 (the same change is C10/w6-2): needs a second caller in the very step of the first',
     ('w6-', 'C01', 3): 'MISSED: needs two polls of one runtime in flight at once; a data race, but C01 has no race pass (maximum-size bodies are too slow under the detector)',
-    ('w6-', 'C07', 1): 'MISSED: the check stays under the lock, the channel send moves behind the unlock - needs a preemption between an unlock and the next statement (no scheduling point, no data race)',
-    ('w6-', 'C08', 2): 'MISSED: same change as C07/w6-1',
+    ('w6-', 'C07', 1): 'missed by the main pass (needs a preemption between an unlock and the next statement); caught since the unlock-yield pass exists (DESIGN 11.17)',
+    ('w6-', 'C08', 2): 'same change as C07/w6-1: caught by the unlock-yield pass of C08',
     ('w6-', 'C08', 3): 'caught by C05 (the same change is C05/w6-1)',
     ('w6-', 'C15', 2): 'not observable in the emulator: the reset reasons the moved code tests for ("timeout", "failure") are spelled "Timeout" / "ReleaseFail" in RIE mode, a reset never emits that event',
+    ('w7-', 'C13', 2): 'not observable in the emulator: the account id of the init request is always empty in RIE mode (cmd/aws-lambda-rie never sets it), the field is omitted from every register response whatever the cache holds',
+    ('w7-', 'C19', 1): 'MISSED: needs one name used for two processes at the same time, which the check assumes away (model.ExecRequest: names identify a process; the emulator never re-uses a name while its process runs) - recorded as a limit of C19',
     ('w5-', 'C17', 3): 'not reachable: the direct-invoke branch of rapidcore/server.go is never taken by the emulator front end (same limit as C02/3)',
 }
 
@@ -74,10 +76,10 @@ s = '''# Seeded breakages
 
 Each directory holds source changes written by independent sub-agents that were given only the text of that
 property and a scratch worktree (nothing from /verif): `patchN.diff`, `demoN.md` (what breaks, what is needed for it
-to show, a throw-away demonstration), `metaN.json`; later waves carry the prefix `w2-` ... `w6-`.
+to show, a throw-away demonstration), `metaN.json`; later waves carry the prefix `w2-` ... `w7-` (the seventh wave has `w7-demoN_test.go` and `w7-notes.md` instead of `demoN.md`).
 Every patch compiles and passes the unedited test suite. `RESULTS*.txt` hold the output of
 `scripts/seedcheck.sh <patch> <ID>` (quick tier of the property's own check against a scratch worktree with the
-patch applied) on the current tree; `scripts/seeded_matrix_wave{1,2,3,4,5,6}.sh` regenerate them, this file is regenerated by
+patch applied) on the current tree; `scripts/seeded_matrix_wave{1,2,3,4,5,6,7}.sh` regenerate them, this file is regenerated by
 `scripts/seeded_readme.py`.
 
 '''
@@ -86,7 +88,8 @@ for title, prefix, fname in (('First wave (18 properties, 54 patches)', '', 'RES
                              ('Third wave (10 properties, 30 patches)', 'w3-', 'RESULTS-wave3.txt'),
                              ('Fourth wave (8 properties, 24 patches; asked for subtler changes)', 'w4-', 'RESULTS-wave4.txt'),
                              ('Fifth wave (8 properties, 24 patches; asked for synchronisation mistakes)', 'w5-', 'RESULTS-wave5.txt'),
-                             ('Sixth wave (8 properties, 24 patches; concurrency and ordering mistakes)', 'w6-', 'RESULTS-wave6.txt')):
+                             ('Sixth wave (8 properties, 24 patches; concurrency and ordering mistakes)', 'w6-', 'RESULTS-wave6.txt'),
+                             ('Seventh wave (8 properties, 16 patches; history, ordering and boundary dependent changes)', 'w7-', 'RESULTS-wave7.txt')):
     t, c, n = table(prefix, fname)
     s += f'## {title}\n\n{c} of {n} caught by the quick tier of the own check.\n\n{t}\n'
 open(os.path.join(ROOT, 'README.md'), 'w').write(s)
